@@ -323,6 +323,9 @@ pub fn c02(opts: &Opts, out: &mut Out) {
             let vrecs = tap::take();
             count += 1;
             classes.insert((inst.n, inst.m, inst.t, name.split(|c: char| c == '[').next().unwrap_or("").to_string()));
+            // the other verifying mode must give the same verdict (the relation is enforced in every mode that verifies)
+            let r2 = fmrun::Proof::verify_batch(&mut [inst.transcript()], std::slice::from_ref(&stmt), std::slice::from_ref(&mproof), VerifyAction::RecoverAndVerify);
+            out.oracle("C02:same-verdict-in-recover-and-verify", r2.is_ok() == r.is_ok(), &format!("{} mut={}", key, name), &format!("verifyOnly={} recoverAndVerify={}", r.is_ok(), r2.is_ok()));
             if name == "identity" {
                 out.oracle("C02:identity-accepted", r.is_ok(), &key, "re-encoded honest proof rejected");
             } else {
